@@ -431,6 +431,19 @@ def gen_noise(rng, p=0.35):
         acts.append({'id': 'N7', 'kind': 'reader', 'file': 'noise6'})
 
     if rng.chance(0.4):
+        # ... and readers that stop at a parse error half way, in either
+        # header newline style (abandoned with their streams)
+        for j, nl in enumerate([b'\n', b'\r\n'] if rng.chance(0.5)
+                               else [b'\r\n']):
+            acts.append({'id': 'N8%d' % j, 'kind': 'raw',
+                         'file': 'noise8%d' % j,
+                         'hex': (b'#diffx: encoding=utf-8, version=1.0' + nl +
+                                 b'#.change:' + nl + b'#..file:' + nl +
+                                 b'#..file:' + nl).hex()})
+            acts.append({'id': 'N9%d' % j, 'kind': 'reader',
+                         'file': 'noise8%d' % j})
+
+    if rng.chance(0.4):
         from dsim import domgen
         ops = domgen.gen_tree_ops(rng, 'N.T1', max_changes=2, max_files=2,
                                   full=True)
